@@ -1084,6 +1084,14 @@ coap_pdu_parse_header(coap_pdu_t *pdu, coap_proto_t proto) {
   }
 
   e_token_length = hdr[0] & 0x0f;
+  if ((e_token_length == COAP_TOKEN_EXT_1B_TKL && pdu->used_size < 1) ||
+      (e_token_length == COAP_TOKEN_EXT_2B_TKL && pdu->used_size < 2)) {
+    /* The extended token length byte(s) were not received */
+    coap_log_debug("coap_pdu_parse: PDU header token size broken\n");
+    pdu->e_token_length = 0;
+    pdu->actual_token.length = 0;
+    return 0;
+  }
   if (e_token_length < COAP_TOKEN_EXT_1B_TKL) {
     pdu->e_token_length = e_token_length;
     pdu->actual_token.length = pdu->e_token_length;
